@@ -79,6 +79,10 @@ func (f *ftFam) Reset() M {
 
 // enc maps a symbolic token back to the real string.
 func (f *ftFam) enc(sym string) string {
+	if core := strings.TrimSpace(sym); core != sym && core != "" { // a token with blanks around it: the blanks are part of the string
+		i := strings.Index(sym, core)
+		return sym[:i] + f.enc(core) + sym[i+len(core):]
+	}
 	for d, s := range f.dec {
 		if s == sym {
 			return d
@@ -87,6 +91,10 @@ func (f *ftFam) enc(sym string) string {
 	return sym
 }
 func (f *ftFam) sym(d string) string {
+	if core := strings.TrimSpace(d); core != d && core != "" {
+		i := strings.Index(d, core)
+		return d[:i] + f.sym(core) + d[i+len(core):]
+	}
 	if s, ok := f.dec[d]; ok {
 		return s
 	}
@@ -349,11 +357,14 @@ func (f *ftFam) Random(rng *rand.Rand) M {
 	ids := func(kind, t string) []interface{} {
 		var l []interface{}
 		for n := 1 + rng.Intn(2); n > 0; n-- {
-			switch rng.Intn(6) {
+			switch rng.Intn(7) {
 			case 0:
 				l = append(l, "crafted/id")
 			case 1:
 				l = append(l, "")
+			case 2: // a real id with blanks around it names a different id (nobody holds it)
+				pad := [][2]string{{" ", ""}, {"", " "}, {" ", " "}}[rng.Intn(3)]
+				l = append(l, pad[0]+kind+"|"+t+"|"+acc()+pad[1])
 			default:
 				l = append(l, kind+"|"+t+"|"+acc())
 			}
